@@ -95,18 +95,42 @@ def parse(text, stop=False, default='en', acc=None, id_generator=None, raw_scann
 
 
 _REUSED = {}
+_CALLS = {}
+# what a long-lived parser / matcher pair has been through before the document under test: rejected documents of every fault class
+# (unknown language, tag with a blank, unclosed doc string, ragged table, unexpected line, > 10 errors) and a dialect switch
+HISTORY = [
+    '#language: fr\nFonctionnalité: f\n  Scénario: s\n    Soit g\n',
+    'Feature: f\n  Scenario: s\n    Given g\n      ```md\n      open\n',
+    'Feature: f\n  @a b\n  Scenario: s\n    Given g\n      | a | b |\n      | c |\n',
+    'Feature: f\n' + '  Rule: r\n  Feature: g\n' * 12,
+    'Feature: f\n  Scenario Outline: o <a>\n    * g <a>\n  @t\n    Examples:\n      | a |\n      | 1 |\n  # c\n',
+    '#language: no-such-language\nFeature: f\n  Scenario: s\n    Given g\n',
+]
 
 
-def parse_reused(text, default='en', stop=False):
+def _history(p, m):
+    for h in HISTORY:
+        try:
+            p.parse(StringScanner(h), m)
+        except ParserError:
+            pass
+
+
+def parse_reused(text, default='en', stop=False, poison=False):
     """Same as parse(), but with ONE long-lived Parser + TokenMatcher per process and dialect (only the id generator is
-    fresh, so that ids are comparable): what a caller sees who keeps its parser and matcher for many files."""
+    fresh, so that ids are comparable): what a caller sees who keeps its parser and matcher for many files.  The pair goes through
+    HISTORY when it is created, again every 64th call, and right before this call when poison is set."""
     key = (default, stop)
     if key not in _REUSED:
         _REUSED[key] = (Parser(AstBuilder(IdGenerator())), TokenMatcher(default))
+        _CALLS[key] = 0
     p, m = _REUSED[key]
     p.stop_at_first_error = stop
     p.ast_builder.id_generator = IdGenerator()
     try:
+        if poison or _CALLS[key] % 64 == 0:
+            _history(p, m)
+        _CALLS[key] += 1
         d = p.parse(StringScanner(text), m)
         if not isinstance(d, dict):
             return ('exc', 'Parser.parse returned %r instead of a document' % (d,))
